@@ -111,6 +111,12 @@ def run(ctx):
         fam = ["RespGetBig", "RespGetCarved", "ReqLocate"] if n % 2 == 0 else ["RespGetBig", "RespGet", "RespGetCarved"]
         procs = [[call(fam[(g + i) % len(fam)], (n + 4) % 5, "enc", ENCS[(n + i) % 3]) for i in range(len(fam))] for g in range(8)]
         jobs.append({"id": "shared-values-%d" % n, "job": {"mode": "free", "shared": True, "reps": 150 if ctx.quick else 400, "procs": procs}})
+    # (f) custom attributes: 8 goroutines decode (and encode) messages whose custom / unknown attribute values differ from goroutine to
+    # goroutine: what a decoding returns is the content of ITS document
+    ncust = 3 if ctx.quick else 12
+    for n in range(ncust):
+        procs = [[call("RespGetCustom", (g + n) % 5, "dec" if i % 2 == 0 else "enc", ENCS[(n + g // 3) % 3]) for i in range(2)] for g in range(8)]
+        jobs.append({"id": "custom-attributes-%d" % n, "job": {"mode": "free", "reps": 300 if ctx.quick else 800, "procs": procs}})
     jpath = os.path.join(ctx.work, "jobs.ndjson")
     vlib.write_ndjson(jpath, jobs)
     results = []
